@@ -434,6 +434,69 @@ def h_decimal_literals_other_types(eng, tname):
     eng.prove(all(type(v) is ntype for v in (ureg._units["inch"].converter.scale, ureg._prefixes["cc"].converter.scale, ureg._contexts["cx"].defaults["n"], ureg._units["degA"].converter.offset)), f"{tname}:numeric-types-of-definitions")
 
 
+_CHILD_CACHE = r"""
+import json, sys
+import pint
+path, cache = sys.argv[1], sys.argv[2]
+kw = {} if cache == "-" else {"cache_folder": cache}
+ureg = pint.UnitRegistry(path, **kw)
+out = {}
+for probe in ["m", "s", "knot", "acre", "lb", "m ** 2", "ft / minute", "hand"]:
+    out["compatible(%s)" % probe] = sorted(str(u) for u in ureg.get_compatible_units(probe))
+for probe in ["knot", "acre", "yd", "walk", "kkm", "inches"]:
+    out["dim(%s)" % probe] = sorted((k, str(v)) for k, v in ureg.get_dimensionality(probe).items())
+    f, u = ureg.get_root_units(probe)
+    out["root(%s)" % probe] = [repr(f), str(u)]
+    out["base(%s)" % probe] = [repr(ureg.get_base_units(probe)[0]), str(ureg.get_base_units(probe)[1])]
+out["convert"] = [repr(ureg.Quantity(2.5, a).to(b).magnitude) for a, b in (("acre", "m**2"), ("knot", "ft/minute"), ("lb", "g"), ("degX", "kel"))]
+out["groups"] = sorted(ureg.get_group("G").members)
+out["system"] = [ureg.default_system, sorted(ureg.get_system("S").members)]
+with ureg.context("cx"):
+    out["context"] = repr(ureg.Quantity(3.0, "m").to("s").magnitude)
+print(json.dumps(out, sort_keys=True))
+"""
+
+
+def h_cache_across_processes(eng):
+    """the on-disk cache is written by one interpreter and read by another one (with another string
+    hash seed): cold, warm and uncached loads of the same file answer alike"""
+    import json
+    import subprocess
+    import sys
+
+    text = "\n".join([
+        "kk- = 1000 = K-", "mm- = 1e-3", "m = [length] = M_ = metre", "s = [time]", "g = [mass]", "kel = [temp]", "[speed] = [length] / [time]",
+        "inch = 0.0254 * m = in_ = inches", "ft = 12 * inch", "yd = 3 * ft", "minute = 60 * s", "hour = 60 * minute", "knot = 1852 * m / hour = kt", "walk = 5 * kkm / hour",
+        "acre = 43560 * ft ** 2", "lb = 453.59237 * g", "degX = 1.8 * kel; offset: 255.372",
+        "@group H", "    hand = 4 * inch", "@end", "@group G using H", "    rod = 16.5 * ft", "@end", "@system S using G", "    ft", "@end",
+        "@context(n=1.5) cx", "    [length] -> [time]: value * n * s / m", "@end", "@defaults", "    group = root", "    system = S", "@end",
+    ]) + "\n"  # fmt: skip
+    tmp = tempfile.mkdtemp(prefix="pv_c10x_")
+    try:
+        fn = os.path.join(tmp, "defs.txt")
+        with open(fn, "w", encoding="utf-8") as f:
+            f.write(text)
+        cache = os.path.join(tmp, "cache")
+
+        def run(cache_arg, seed):
+            env = dict(os.environ, PYTHONPATH="/repo", PYTHONHASHSEED=str(seed))
+            r = subprocess.run([sys.executable, "-c", _CHILD_CACHE, fn, cache_arg], capture_output=True, text=True, env=env, cwd=tmp, timeout=300)
+            if r.returncode != 0:
+                return {"error": r.stderr.strip().splitlines()[-1:] or ["?"]}
+            return json.loads(r.stdout.strip().splitlines()[-1])
+
+        ref = run("-", 11)
+        cold = run(cache, 12)
+        warm = run(cache, 13)
+        warm2 = run(cache, 14)
+        eng.prove("error" not in ref and len(ref.get("compatible(m)", [])) >= 2, "cache-across-processes:reference-load-works")
+        for name, got in (("cold", cold), ("warm", warm), ("warm-again", warm2)):
+            for k in sorted(ref):
+                eng.prove(got.get(k) == ref[k], f"cache-across-processes:{name}:{k}")
+    finally:
+        shutil.rmtree(tmp, ignore_errors=True)
+
+
 def h_random_dag(eng, k):
     """a seeded random definition file: base units, a DAG of derived units with symbolic scales and
     small integer exponents over earlier units, aliases, symbols ('_' placeholders), two prefixes,
@@ -608,6 +671,7 @@ def cases(tier, seed):
         out.append(Case("H10.b", "perm-units-first:" + "".join(map(str, p)), M, "h_interpret", {"perm": list(p), "layout": "units-first"}, opts=opts, validate=0, weight=5.0))
     for path in ("file", "load_definitions", "define", "cache-cold", "cache-warm", "cache-import-edit"):
         out.append(Case("H10.c", path, M, "h_loading_paths", {"path": path}, opts=opts, validate=1 if path in ("file", "load_definitions") else 0, weight=6.0))
+    out.append(Case("H10.c", "cache-across-processes", M, "h_cache_across_processes", {}, kind="conc"))
     for kind in ILL_FORMED:
         out.append(Case("H10.e", kind, M, "h_ill_formed", {"kind": kind}, opts=opts, validate=1))
     for tname in ("float", "Decimal"):
